@@ -342,6 +342,7 @@ package fsnotify
 
 //@ func (w *inotify) Close() (err error)
 //@   requires Wf(w) && nolocks()
+//@   atcall unix.Close: fdOpen                                                            [C14 C13] "the raw descriptor number is closed only while this Watcher still owns it: once the inotify file is closed the number may belong to another Watcher"
 //@   atcall os.File.Close: closed(w.done)                                                 [C06 C10 C01] "the inotify file is closed only after the Watcher has been marked closed (the reader takes a read error on a closed file as the end of the Watcher)"
 //@   ensures closed(w.done)                                                               [C06 C05] "after Close the watcher is closed"
 //@   ensures old(closed(w.done)) ==> err == nil                                           [C05] "Close may be called any number of times"
